@@ -41,7 +41,7 @@ def snap(args, kwargs):
     D = args[1] if len(args) > 1 else kwargs.get("new_variable_bounds")
     if not isinstance(D, dict):
         return None
-    v = adapters.validated(self)
+    v = adapters.validated(self, need_no_prefixed=False)
     if v is None:
         return None
     graph, top, info = v
@@ -66,6 +66,8 @@ def snap(args, kwargs):
             if nv[0] == nv[1]:
                 ov[k] = nv[0]
             else:
+                if graph[k]["b"][0] == graph[k]["b"][1]:
+                    return None      # open bounds for a node fixed by its own bounds: not decided by the statement
                 ivl[k] = nv
     return graph, top, box, ov, ivl, copy.deepcopy(self), dict(D)
 
@@ -139,6 +141,11 @@ def gen_case(rng, tier, ctx, i):
     rec = common.model_case(rng, tier, o)
     if rec is None:
         return None
+    if rng.random() < 0.15:
+        # a node (possibly the root) whose own variable was settled at construction
+        nodes = [n for n in refmodel.recipe_nodes(rec) if n.get("id") and n["k"] not in ("var", "str", "ref", "Not")]
+        if nodes:
+            rng.choice(nodes)["fix"] = rng.choice([0, 1])
     return common.with_twins(rng, {"recipe": rec, "seed": rng.getrandbits(32)})
 
 
@@ -171,7 +178,7 @@ def _run_one(case, ctx):
     m0 = recipes.fresh(case["recipe"])
     if adapters.is_leaf(m0):
         raise monitor.OutOfScope()
-    graph, top, info = common.domain(m0)
+    graph, top, info = common.domain(m0, allow_prefixed=True)
     for _ in range(3 if ctx.tier == "quick" else 6):
         d = rand_assumption(rng, graph, top)
         m = recipes.fresh(case["recipe"])
